@@ -218,7 +218,97 @@ func c12SkipLoops(c *Ctx, p *core.Prog) {
 		return false, 0
 	}
 	var constsOfHelper func(f *ssa.Function, depth int) []int64
-	classify := func(cond ssa.Value) tokTest {
+	var classify func(cond ssa.Value) tokTest
+	// a flag that is given a non-zero value only where a positive token test has just succeeded (`kind = kw.name; break`
+	// inside `if p.isType(kw.tok)`): testing the flag afterwards is testing the token
+	flagTest := func(x *ssa.BinOp, pol int) (tokTest, bool) {
+		if x.Op != token.EQL && x.Op != token.NEQ {
+			return tokTest{}, false
+		}
+		var ph *ssa.Phi
+		var zero ssa.Value
+		for _, pair := range [][2]ssa.Value{{x.X, x.Y}, {x.Y, x.X}} {
+			if q, ok := pair[0].(*ssa.Phi); ok {
+				if cst, ok := pair[1].(*ssa.Const); ok {
+					ph, zero = q, cst
+				}
+			}
+		}
+		if ph == nil {
+			return tokTest{}, false
+		}
+		isZero := func(v ssa.Value) bool {
+			cst, ok := v.(*ssa.Const)
+			if !ok {
+				return false
+			}
+			z := zero.(*ssa.Const)
+			if cst.Value == nil || z.Value == nil {
+				return cst.Value == nil && z.Value == nil
+			}
+			return cst.Value.String() == z.Value.String()
+		}
+		// collect the leaves of the merge with the block each arrives from
+		type leaf struct {
+			v    ssa.Value
+			from *ssa.BasicBlock
+		}
+		var leaves []leaf
+		seen := map[*ssa.Phi]bool{}
+		var walk func(q *ssa.Phi, d int)
+		walk = func(q *ssa.Phi, d int) {
+			if seen[q] || d > 4 {
+				return
+			}
+			seen[q] = true
+			for i, e := range q.Edges {
+				if qq, ok := e.(*ssa.Phi); ok {
+					walk(qq, d+1)
+					continue
+				}
+				leaves = append(leaves, leaf{e, q.Block().Preds[i]})
+			}
+		}
+		walk(ph, 0)
+		nonZero := 0
+		for _, l := range leaves {
+			if isZero(l.v) {
+				continue
+			}
+			nonZero++
+			// the block the non-zero value comes from lies behind the positive side of a token test
+			okLeaf := false
+			for d := l.from; d != nil && !okLeaf; d = d.Idom() {
+				id := d.Idom()
+				if id == nil || len(d.Preds) != 1 || d.Preds[0] != id {
+					continue
+				}
+				if iff, ok := id.Instrs[len(id.Instrs)-1].(*ssa.If); ok {
+					if _, isBin := iff.Cond.(*ssa.BinOp); isBin {
+						if b2, ok := iff.Cond.(*ssa.BinOp); ok && b2 == x {
+							continue
+						}
+					}
+					t := classify(iff.Cond)
+					if t.isTest && id.Succs[t.posSucc] == d {
+						okLeaf = true
+					}
+				}
+			}
+			if !okLeaf {
+				return tokTest{}, false
+			}
+		}
+		if nonZero == 0 {
+			return tokTest{}, false
+		}
+		t := tokTest{isTest: true, posSucc: pol}
+		if x.Op == token.EQL { // flag == zero: the positive (non-zero) side is the false successor
+			t.posSucc ^= 1
+		}
+		return t, true
+	}
+	classify = func(cond ssa.Value) tokTest {
 		pol := 0
 		for {
 			u, ok := cond.(*ssa.UnOp)
@@ -227,6 +317,11 @@ func c12SkipLoops(c *Ctx, p *core.Prog) {
 			}
 			cond = u.X
 			pol ^= 1
+		}
+		if bo, ok := cond.(*ssa.BinOp); ok {
+			if t, ok := flagTest(bo, pol); ok {
+				return t
+			}
 		}
 		switch x := cond.(type) {
 		case *ssa.Extract:
